@@ -224,6 +224,7 @@ func pureCalls() (all []pureCall, core []pureCall) {
 		C(Q("Reverse", func(p *canvas.Path, a *args) { p.Reverse() })),
 		C(Q("Split", func(p *canvas.Path, a *args) { p.Split() })),
 		C(Q("SplitAt", func(p *canvas.Path, a *args) { p.SplitAt(a.fl(0.5, 1.5)...) })),
+		Q("SplitAt(unsorted)", func(p *canvas.Path, a *args) { p.SplitAt(a.fl(1.5, 0.25, 0.5)...) }),
 		C(Q("Settle(NonZero)", func(p *canvas.Path, a *args) { p.Settle(canvas.NonZero) })),
 		Q("Settle(EvenOdd)", func(p *canvas.Path, a *args) { p.Settle(canvas.EvenOdd) }),
 		C(Q("ToSVG", func(p *canvas.Path, a *args) { _ = p.ToSVG() })),
